@@ -697,8 +697,11 @@ func r40DecodeTotal(c *core.Ctx) {
 						}
 					}
 				}
-				c.Check(R, "positive-constraint/tms20.TileMatrix."+f.Name(), f.Pos(), positive, "validate tag enforces a positive value",
-					"numeric field TileMatrix."+f.Name()+" has no positivity constraint (gt=0 / min=1): non-positive sizes are accepted")
+				// and it applies to the zero value too: `omitempty` skips every other constraint for 0, and without
+				// `required` a missing key decodes as 0
+				applies := tagHas(st.Tag(i), "validate", "required") && !tagHas(st.Tag(i), "validate", "omitempty") && !tagHas(st.Tag(i), "validate", "omitnil")
+				c.Check(R, "positive-constraint/tms20.TileMatrix."+f.Name(), f.Pos(), positive && applies, "validate tag enforces a positive value, zero and absent included (required, no omitempty)",
+					"numeric field TileMatrix."+f.Name()+" is not constrained to positive values for every input (needs required and gt=0 / min=1, without omitempty): zero or missing sizes are accepted")
 			}
 			if f.Name() == "ID" || f.Name() == "PointOfOrigin" {
 				c.Check(R, "required-constraint/tms20.TileMatrix."+f.Name(), f.Pos(), tagHas(st.Tag(i), "validate", "required"), "required", "TileMatrix."+f.Name()+" is not marked required")
